@@ -102,6 +102,7 @@ type Run struct {
 	assumptions []string
 	extra       map[string]interface{}
 	incomplete  bool
+	unstableN   int
 	harnessErrs []string
 	guards      []string
 
@@ -435,14 +436,38 @@ func (r *Run) PartWorkers(name string, dims []string, n uint64, workers int, fn 
 				}
 			}
 			if !found {
-				r.HarnessError("violation %q (part %s index %d) did not reproduce on re-execution %d: nondeterministic harness", k, name, v.Index, rep+1)
-				r.mu.Lock()
-				delete(r.viol, k)
-				r.mu.Unlock()
+				r.unstable(k, fmt.Sprintf("part %s index %d failed during the sweep (%d independent callers, each on its own values) and passes on re-execution %d alone", name, v.Index, r.Workers, rep+1))
 				break
 			}
 		}
 	}
+}
+
+// unstable reclassifies a failure that does not reproduce when its case is
+// re-executed alone. Every case is a pure function of its index and works on
+// values it built itself, so a verdict that changes between two executions of
+// the same case means the implementation keeps state that outlives a call (a
+// cache, a pooled buffer, a shared table) and lets it leak into the result of
+// an unrelated call. That is reported as a violation of its own class
+// (<key>/depends-on-other-calls), never merged with the deterministic class.
+func (r *Run) unstable(k, how string) {
+	r.mu.Lock()
+	defer r.mu.Unlock()
+	v := r.viol[k]
+	if v == nil {
+		return
+	}
+	delete(r.viol, k)
+	nk := k + "/depends-on-other-calls"
+	if _, ok := r.known[nk]; ok {
+		r.knownSeen[nk]++
+		return
+	}
+	v.Key = nk
+	v.What = v.What + " -- " + how + ": the result of a call depends on other calls (state shared between independent values)"
+	r.viol[nk] = v
+	r.violOrder = append(r.violOrder, nk)
+	r.unstableN++
 }
 
 func (r *Run) merge(w *wstate) {
